@@ -258,6 +258,9 @@ func BuildQuerySQL(db *gorm.DB) {
 				}
 			}
 
+			// AfterQuery puts the FROM clause back as it was: the joins added above belong to this query only
+			origFrom, hadFrom := db.Statement.Clauses["FROM"]
+			db.InstanceSet(originalFromKey, originalFrom{clause: origFrom, existed: hadFrom})
 			db.Statement.AddClause(fromClause)
 		} else {
 			db.Statement.AddClauseIfNotExists(clause.From{})
@@ -290,12 +293,28 @@ func Preload(db *gorm.DB) {
 	}
 }
 
+const originalFromKey = "gorm:query:original_from"
+
+type originalFrom struct {
+	clause  clause.Clause
+	existed bool
+}
+
 func AfterQuery(db *gorm.DB) {
-	// clear the joins after query because preload need it
-	if v, ok := db.Statement.Clauses["FROM"].Expression.(clause.From); ok {
-		fromClause := db.Statement.Clauses["FROM"]
-		fromClause.Expression = clause.From{Tables: v.Tables, Joins: utils.RTrimSlice(v.Joins, len(db.Statement.Joins))} // keep the original From Joins
-		db.Statement.Clauses["FROM"] = fromClause
+	// clear the joins after query because preload need it: restore the FROM clause the query found.
+	// (Counting back len(Statement.Joins) clauses is wrong when raw SQL meant that none was added, and
+	// for a nested relation join, which adds one clause per level.)
+	if v, ok := db.InstanceGet(originalFromKey); ok {
+		if orig, ok := v.(originalFrom); ok {
+			if orig.existed {
+				db.Statement.Clauses["FROM"] = orig.clause
+			} else if c, ok := db.Statement.Clauses["FROM"]; ok {
+				if from, ok := c.Expression.(clause.From); ok {
+					c.Expression = clause.From{Tables: from.Tables}
+					db.Statement.Clauses["FROM"] = c
+				}
+			}
+		}
 	}
 	if db.Error == nil && db.Statement.Schema != nil && !db.Statement.SkipHooks && db.Statement.Schema.AfterFind && db.RowsAffected > 0 {
 		callMethod(db, func(value interface{}, tx *gorm.DB) bool {
